@@ -4,6 +4,9 @@ import CedarVerif.Lemmas.PartialReauth
 import CedarVerif.Lemmas.PartialFull
 import CedarVerif.Lemmas.PartialBridge
 import CedarVerif.Lemmas.PartialSubst5
+import CedarVerif.Lemmas.PartialStore5
+import CedarVerif.Lemmas.PartialStore6
+import CedarVerif.Lemmas.PartialStore7
 /-
 C13 — partial evaluation with unknowns is sound.  Property theorems only (helpers: Lemmas/Partial*.lean).
 Model: Cedar/Partial.lean (`pinterp`, `PartialResponse`, `reauthorize`).
@@ -16,14 +19,44 @@ What is proved:
     `pinterp_sound_partial2`: the reauthorize form on `Frag2 σ`;
   * `reauthorize_eq_fresh` (given policy-level agreement), `reauthorize_eq_fresh_frag` (on `Frag`),
     `reauthorize_eq_fresh_frag2` (on `Frag2 σ`, policies without unknown nodes in their text);
+  * `pinterp_sound_store` / `pinterp_sound_store_reauth`: the two forms on `Frag2 σ` for a **partial store** `pes` completed by
+    `es` under σ (`PS.StoreCompletes`: known attributes / tags equal, residual attribute / tag values — a direct `Unknown` or
+    unknowns nested in a restricted expression — in the fragment and evaluating, substituted, to the concrete value;
+    entities missing from a concrete-mode store absent; entities missing from a `.partial()` store bound to themselves
+    through the uid-named unknown) and a **residual context** (`PS.CtxCompletes` in `PS.Concretizes2`).  The substitution form
+    holds for direct and nested unknowns alike; the `reauthorize` form holds in ONE round when the second pass reads the
+    substituted store `es`;
+  * `pinterp_sound_store_reauth_direct`: … and in one round on the *unsubstituted* store exactly when every residual
+    attribute is a direct `Unknown` and no tag is residual (`PS.DirectUnk`);
+  * `second_round_needed`, `direct_unknown_one_round` (kernel-checked): on the *unsubstituted* store one round leaves a
+    nested unknown (and a direct unknown *tag*) undiscovered, a second round resolves it; a direct unknown *attribute* is
+    resolved in one round (`get_attr` passes exactly direct `Unknown`s through the mapper);
+  * `missing_unbound_counterexample`: "absent from the completed store" does not replace the binding of the uid-named unknown;
+  * `partial_definite_sound`, `partial_authorization_sound`: the property's statement for policy SETS — static and
+    template-linked policies (any slot environments; no residual keeps a slot: `residualPoliciesPanic = false`) of the
+    fragment, partial stores, residual contexts: a definite partial decision is the concrete decision, must ⊆ determining ⊆
+    may, and `reauthorize σ` on the substituted store gives, in one round, decision and determining policies of the fresh
+    concrete authorization — `table_sound` and `reauthorize_eq_fresh` with their soundness hypotheses discharged;
   * `pinterpSoundFull_needs_cover`: the kept full statement is false for a substitution that leaves a typed unknown
     undefined (typed-unknown short circuits) — it has to be read with σ defining every unknown.
 `Frag` and `Frag2 σ` are formally incomparable only because `Frag2.record` asks for pairwise distinct keys (what the parser
 and `Expr::record` guarantee; without it `get_attr`'s projection — first binding — and record evaluation — last binding —
 differ in the model).
-Still missing w.r.t. `PinterpSoundFull`: residual contexts (`Context::Residual`), unknown attribute / tag values in
-entities, `.partial()` stores (`Dereference::Residual`), calls of the `unknown` function in the policy text (no concrete
-counterpart: `Expr::substitute` does not look into them).
+Still missing w.r.t. `PinterpSoundFull`:
+  * `.partial()` stores only under a hypothesis that a finite σ cannot meet on an infinite uid universe: `PS.StoreCompletes`
+    (like `StoreCompletes` of the full statement) asks the uid-named unknown of EVERY missing entity to be bound; the version
+    relativised to the entities actually dereferenced needs a closed-world invariant on all values (every entity uid
+    occurring in policy, request, σ and store is present or bound) and is not proved.  Proved and non-vacuous: every
+    dereference of a missing entity whose unknown is bound agrees (the `.residual` arms inside `PS.pinterp_sound3`,
+    `PS.papplyBinary_sound3`);
+  * the one-round statement on the *unsubstituted* store for stores whose residual attributes are all direct unknowns is
+    proved at expression level (`pinterp_sound_store_reauth_direct`), not lifted to `reauthorize` on policy sets
+    (`PolicyAgrees` / `reauthorize_core` fix the second-pass store to `.ofConcrete es`);
+  * `StoreCompletes` is stated through `evaluate ∘ substUnk` of a residual attribute, not through `RestrictedEvaluator`
+    (`rinterp`); for contexts and request entries the link to what `concretize_request` computes is proved step by step
+    (`restricted_eval_sound`, `concretize_entry_gives_conc`, `context_substitute_gives_completes`) but `PS.Concretizes2` and
+    `concretize_request = ok` are still separate hypotheses of `partial_authorization_sound`;
+  * calls of the `unknown` function in the policy text (no concrete counterpart: `Expr::substitute` does not look into them).
 -/
 namespace Cedar.C13
 open Cedar
@@ -425,5 +458,333 @@ example :
         have h1 : partialEvaluate σ (.ofConcrete req) (.ofConcrete []) ⟨"p1", .permit, residualCondition (.unaryApp .not (.binaryApp .mem (.unknown "principal" (some (.entity "User"))) (.lit (.entityUID ⟨"Group", "g"⟩)))), []⟩ = .sat := rfl
         rw [h1]; intro h; cases h)
   exact ⟨rfl, pr2, h1, h2, by decide +kernel⟩
+
+
+/-! ### partial stores, residual contexts, unknown attribute / tag values, template-linked policies -/
+
+/-- **pinterp_sound_store** — `pinterp_sound_subst` for a *partial* store `pes` and a possibly *residual* context.
+`PS.StoreCompletes σ pes es`: the concrete store `es` completes `pes` under σ (known attributes / tags equal; a residual
+attribute or tag value — a direct `Unknown` or a restricted expression with unknowns nested in it — lies in `Frag2 σ` and its
+substitution evaluates to the concrete value; ancestors equal; an entity missing from a concrete-mode store is absent;
+an entity missing from a `.partial()` store is bound by σ to itself through the unknown named by its uid, `PS.Bound`).
+`PS.Concretizes2`: as `Concretizes`, and a residual context (`Context::Residual`) lies in the fragment and its substitution
+evaluates to the concrete context (`PS.CtxCompletes`).
+The conclusion is that of `pinterp_sound_subst`, for the first pass on `pes` (any mapper `m0 ⊆ σ`).  It holds for direct
+`Unknown` attributes (passed through the mapper by `get_attr`) and for unknowns nested inside attribute / tag values alike:
+the *substitution form* does not depend on when an unknown is discovered.
+Caveat for `.partial()` stores: a finite σ binds finitely many uid-named unknowns, so for `partialMode = true` the
+hypothesis `StoreCompletes` (which asks `Bound` for *every* missing uid) is only satisfiable over a finite uid universe; the
+version relativised to the entities actually dereferenced (a closed-world invariant on all values) is not proved.  What
+is proved for a missing entity is exactly: *if* its uid-named unknown is bound to itself, the residuals `unknown(uid).a`,
+`unknown(uid) has a`, `unknown(uid) in …`, `….getTag/hasTag` agree with the concrete store
+(`missing_unbound_counterexample`: without the binding they do not). -/
+theorem pinterp_sound_store (σ : Mapper) (req : Request) (es : Entities) (env : SlotEnv)
+    (hctx : (Value.record req.context).Canon) {e : Expr} (hf : PS.Frag2 σ e)
+    (m0 : Mapper) (preq : PRequest) (pes : PEntities) (n : Nat) (hm : PS.MapLE m0 σ)
+    (hS : PS.StoreCompletes σ pes es) (hC : PS.Concretizes2 σ es preq req) :
+    match pinterp m0 preq pes env n e with
+    | .val v => evaluate req es env (v.toExpr.substUnk σ) = .ok v ∧ evaluate req es env (e.substUnk σ) = .ok v
+    | .err _ => ∃ c, evaluate req es env (e.substUnk σ) = .error c
+    | .res r => PS.Agree (evaluate req es env (r.substUnk σ)) (evaluate req es env (e.substUnk σ))
+    | .fuel => True
+    | .panic => True := by
+  have h := PS.pinterp_sound3 σ req es env hctx m0 preq pes hS hm hC n e hf
+  cases hx : pinterp m0 preq pes env n e with
+  | val v => rw [hx] at h; exact ⟨PS.Y_toExpr σ req es env h.2, h.1⟩
+  | err c => rw [hx] at h; exact h
+  | res r => rw [hx] at h; exact h.1
+  | fuel => trivial
+  | panic => trivial
+
+/-- **pinterp_sound_store_reauth** — the `reauthorize` form for partial stores: the residual of the first pass on `pes`,
+re-interpreted with the mapper σ on the concretised request **and the substituted store `es`** (what the documentation of
+`reauthorize` asks for: "entities … with the unknowns substituted"), agrees with the concrete evaluation; in particular
+no residual is left after this one round.  The hypothesis "second pass on the substituted store" is needed:
+`second_round_needed`. -/
+theorem pinterp_sound_store_reauth (σ : Mapper) (req : Request) (es : Entities) (env : SlotEnv)
+    (hctx : (Value.record req.context).Canon) (hstore : PS.StoreCanon es) {e : Expr} (hf : PS.Frag2 σ e)
+    (m0 : Mapper) (preq : PRequest) (pes : PEntities) (n : Nat) (hm : PS.MapLE m0 σ)
+    (hS : PS.StoreCompletes σ pes es) (hC : PS.Concretizes2 σ es preq req) :
+    match pinterp m0 preq pes env n e with
+    | .val v => evaluate req es env (e.substUnk σ) = .ok v
+    | .err _ => ∃ c, evaluate req es env (e.substUnk σ) = .error c
+    | .res r => ∀ n', Sem (pinterp σ (.ofConcrete req) (.ofConcrete es) env n' r) (evaluate req es env (e.substUnk σ))
+    | .fuel => True
+    | .panic => True := by
+  have h := PS.pinterp_sound3 σ req es env hctx m0 preq pes hS hm hC n e hf
+  cases hx : pinterp m0 preq pes env n e with
+  | val v => rw [hx] at h; exact h.1
+  | err c => rw [hx] at h; exact h
+  | res r => rw [hx] at h; exact fun n' => PS.sem_of_agree (PS.bridge σ req es env hctx hstore h.2.2 n') h.1
+  | fuel => trivial
+  | panic => trivial
+
+/-- non-vacuity of `pinterp_sound_store`: a residual context `{lim: unknown("l")}`, an entity with a *direct* unknown
+    attribute (`level`) and an attribute with a *nested* unknown (`info = {x: unknown("u")}`), an unknown principal;
+    `principal.info == {x: 1} && resource.level < context.lim`.  All hypotheses hold; the first pass leaves a residual. -/
+example :
+    let σ : Mapper := [("principal", .prim (.entityUID ⟨"User", "a"⟩)), ("u", .prim (.int 1)), ("l", .prim (.int 7))]
+    let req : Request := ⟨⟨"User", "a"⟩, ⟨"A", "x"⟩, ⟨"User", "a"⟩, [("lim", .prim (.int 7))]⟩
+    let preq : PRequest := ⟨.unknown (some "User"), .known ⟨"A", "x"⟩, .known ⟨"User", "a"⟩,
+      some (.residual [("lim", .unknown "l" (some .long))])⟩
+    let pes : PEntities := ⟨[(⟨"User", "a"⟩, ⟨[("info", .residual (.record [("x", .unknown "u" none)])),
+      ("level", .residual (.unknown "u" (some .long)))], [], []⟩)], false⟩
+    let es : Entities := [(⟨"User", "a"⟩, ⟨[("info", .record [("x", .prim (.int 1))]), ("level", .prim (.int 1))], [], []⟩)]
+    let e : Expr := .and (.binaryApp .eq (.getAttr (.var .principal) "info") (.record [("x", .lit (.int 1))]))
+                         (.binaryApp .less (.getAttr (.var .resource) "level") (.getAttr (.var .context) "lim"))
+    PS.Frag2 σ e ∧ PS.StoreCompletes σ pes es ∧ PS.Concretizes2 σ es preq req ∧
+    (∃ r, pinterp [] preq pes [] 10 e = .res r) ∧ (⟨"q", .permit, e.substUnk σ, []⟩ : Policy).outcome req es = .sat := by
+  intro σ req preq pes es e
+  have hu : PS.UnkOK σ "u" none := ⟨_, rfl, trivial, by intro t ht; cases ht⟩
+  have hul : PS.UnkOK σ "u" (some .long) := ⟨_, rfl, trivial, by intro t ht; cases ht; rfl⟩
+  have hl : PS.UnkOK σ "l" (some .long) := ⟨_, rfl, trivial, by intro t ht; cases ht; rfl⟩
+  have hrec1 : PS.Frag2 σ (.record [("x", .unknown "u" none)]) := by
+    refine .record (by decide) ?_
+    intro kv hkv; simp only [List.mem_cons, List.not_mem_nil, or_false] at hkv; subst hkv; exact .unknown _ _ hu
+  have hrecL : PS.Frag2 σ (.record [("lim", .unknown "l" (some .long))]) := by
+    refine .record (by decide) ?_
+    intro kv hkv; simp only [List.mem_cons, List.not_mem_nil, or_false] at hkv; subst hkv; exact .unknown _ _ hl
+  have hcan : (Value.record [("x", .prim (.int 1))]).Canon := ⟨⟨(by intro k' h; cases h), trivial⟩, trivial, trivial⟩
+  refine ⟨?_, ?_, ⟨⟨rfl, rfl⟩, rfl, rfl, ⟨hrecL, fun _ _ => rfl⟩⟩, ⟨_, rfl⟩, by decide +kernel⟩
+  · refine .and (.binaryApp .eq (.getAttr "info" (.var _)) (.record (by decide) ?_))
+      (.binaryApp .less (.getAttr "level" (.var _)) (.getAttr "lim" (.var _)))
+    intro kv hkv; simp only [List.mem_cons, List.not_mem_nil, or_false] at hkv; subst hkv; exact .lit _
+  · exact PS.storeCompletes_single _ _ _ rfl
+      (PS.attrsComplete_cons "info" (show PS.AttrCompletes _ _ (.residual _) _ from ⟨hrec1, hcan, fun _ _ => rfl⟩)
+        (PS.attrsComplete_cons "level" (show PS.AttrCompletes _ _ (.residual _) (.prim (.int 1)) from ⟨.unknown _ _ hul, trivial, fun _ _ => rfl⟩)
+          PS.attrsComplete_nil))
+      PS.attrsComplete_nil
+
+/-- **second_round_needed** (kernel-checked; the model reproduces the harness observation
+`undiscovered_nested_unknown_second_round`).  Entity `User::"a"` has `info = {x: unknown("u")}` (an unknown *nested* in an
+attribute value); the principal is unknown; σ = {principal ↦ User::"a", u ↦ 1}.  For the policy `principal.info == {x: 1}`
+(concretely: `Allow`):
+  * `reauthorize σ` on the **unsubstituted** store (unknown attributes kept) still leaves the policy residual — `get_attr`
+    maps only a direct `Unknown` through the mapper, any other residual attribute is returned unchanged — so the decision
+    is still undetermined although σ defines every unknown;
+  * a **second** `reauthorize` round (same σ minus the request variables, now concrete) resolves it to `Allow`;
+  * `reauthorize σ` on the **substituted** store gives `Allow` at once (this is `partial_authorization_sound`). -/
+theorem second_round_needed :
+    (isAuthorized PS.srReq PS.srEs [PS.srNested]).decision = .allow ∧
+    (∃ pr2, (isAuthorizedCore [] PS.srPreq PS.srPes [PS.srNested]).reauthorize PS.srSigma PS.srPes = .ok pr2 ∧ pr2.decision = none ∧
+      pr2.residualPermits = [("nested", .and (.lit (.bool true)) (.and (.lit (.bool true)) (.and (.lit (.bool true))
+        (.binaryApp .eq (.record [("x", .unknown "u" none)]) (.record [("x", .lit (.int 1))])))))] ∧
+      ∃ pr3, pr2.reauthorize [("u", .prim (.int 1))] PS.srPes = .ok pr3 ∧ pr3.decision = some .allow) ∧
+    (∃ pr2, (isAuthorizedCore [] PS.srPreq PS.srPes [PS.srNested]).reauthorize PS.srSigma (.ofConcrete PS.srEs) = .ok pr2 ∧
+      pr2.decision = some .allow) :=
+  ⟨by decide +kernel, ⟨_, rfl, by decide +kernel, rfl, _, rfl, by decide +kernel⟩, ⟨_, rfl, by decide +kernel⟩⟩
+
+/-- **direct_unknown_one_round** (kernel-checked): for an attribute that is a *direct* `Unknown` (`principal.level == 1`)
+one `reauthorize` round on the unsubstituted store suffices (`get_attr` passes it through the mapper); for a *tag* that is
+a direct unknown it does not (`getTag` returns the stored partial value as it is) — on the substituted store both are
+resolved. -/
+theorem direct_unknown_one_round :
+    (∃ pr2, (isAuthorizedCore [] PS.srPreq PS.srPes [PS.srDirect]).reauthorize PS.srSigma PS.srPes = .ok pr2 ∧ pr2.decision = some .allow) ∧
+    (∃ pr2, (isAuthorizedCore [] PS.srPreq PS.srPes [PS.srTag]).reauthorize PS.srSigma PS.srPes = .ok pr2 ∧ pr2.decision = none) ∧
+    (∃ pr2, (isAuthorizedCore [] PS.srPreq PS.srPes [PS.srTag]).reauthorize PS.srSigma (.ofConcrete PS.srEs) = .ok pr2 ∧
+      pr2.decision = some .allow) :=
+  ⟨⟨_, rfl, by decide +kernel⟩, ⟨_, rfl, by decide +kernel⟩, ⟨_, rfl, by decide +kernel⟩⟩
+
+/-- **pinterp_sound_store_reauth_direct** — "for direct-`Unknown` attributes exactly": when every residual attribute
+value of the (concrete-mode) partial store is a *direct* `Unknown` and no tag value is residual (`PS.DirectUnk`), ONE second
+pass on the **unsubstituted** store `pes` — mapper σ, concretised request — leaves no residual and agrees with the concrete
+evaluation: `get_attr` passes exactly the direct `Unknown`s through the mapper.  (`second_round_needed`,
+`direct_unknown_one_round`: neither "direct" nor "no residual tag" can be dropped.) -/
+theorem pinterp_sound_store_reauth_direct (σ : Mapper) (req : Request) (es : Entities) (env : SlotEnv)
+    (hctx : (Value.record req.context).Canon) {e : Expr} (hf : PS.Frag2 σ e)
+    (m0 : Mapper) (preq : PRequest) (pes : PEntities) (n : Nat) (hm : PS.MapLE m0 σ)
+    (hS : PS.StoreCompletes σ pes es) (hC : PS.Concretizes2 σ es preq req) (hD : PS.DirectUnk pes) :
+    match pinterp m0 preq pes env n e with
+    | .val v => evaluate req es env (e.substUnk σ) = .ok v
+    | .err _ => ∃ c, evaluate req es env (e.substUnk σ) = .error c
+    | .res r => ∀ n', Sem (pinterp σ (.ofConcrete req) pes env n' r) (evaluate req es env (e.substUnk σ))
+    | .fuel => True
+    | .panic => True := by
+  have h := PS.pinterp_sound3 σ req es env hctx m0 preq pes hS hm hC n e hf
+  cases hx : pinterp m0 preq pes env n e with
+  | val v => rw [hx] at h; exact h.1
+  | err c => rw [hx] at h; exact h
+  | res r => rw [hx] at h; exact fun n' => PS.sem_of_agree (PS.bridge_direct σ req es env hctx pes hS hD h.2.2 n') h.1
+  | fuel => trivial
+  | panic => trivial
+
+/-- non-vacuity of `pinterp_sound_store_reauth_direct`: `User::"a"` with `level = unknown("u")`, unknown principal,
+    `principal.level == 1`: the first pass leaves `unknown(principal).level == 1`; the hypotheses hold. -/
+example :
+    let σ : Mapper := [("principal", .prim (.entityUID ⟨"User", "a"⟩)), ("u", .prim (.int 1))]
+    let req : Request := ⟨⟨"User", "a"⟩, ⟨"A", "x"⟩, ⟨"R", "r"⟩, []⟩
+    let preq : PRequest := ⟨.unknown (some "User"), .known ⟨"A", "x"⟩, .known ⟨"R", "r"⟩, some (.value [])⟩
+    let pes : PEntities := ⟨[(⟨"User", "a"⟩, ⟨[("level", .residual (.unknown "u" none))], [], []⟩)], false⟩
+    let es : Entities := [(⟨"User", "a"⟩, ⟨[("level", .prim (.int 1))], [], []⟩)]
+    let e : Expr := .binaryApp .eq (.getAttr (.var .principal) "level") (.lit (.int 1))
+    PS.Frag2 σ e ∧ PS.StoreCompletes σ pes es ∧ PS.Concretizes2 σ es preq req ∧ PS.DirectUnk pes ∧
+    pinterp [] preq pes [] 10 e = .res (.binaryApp .eq (.getAttr (.unknown "principal" (some (.entity "User"))) "level") (.lit (.int 1))) ∧
+    (match pinterp σ (.ofConcrete req) pes [] 10
+        (.binaryApp .eq (.getAttr (.unknown "principal" (some (.entity "User"))) "level") (.lit (.int 1))) with
+      | .val (.prim (.bool b)) => b
+      | _ => false) = true := by
+  intro σ req preq pes es e
+  have hu : PS.UnkOK σ "u" none := ⟨_, rfl, trivial, by intro t ht; cases ht⟩
+  refine ⟨.binaryApp .eq (.getAttr "level" (.var _)) (.lit _), ?_, ⟨⟨rfl, rfl⟩, rfl, rfl, rfl⟩, ⟨rfl, ?_⟩, rfl, by decide +kernel⟩
+  · exact PS.storeCompletes_single _ _ _ rfl
+      (PS.attrsComplete_cons "level" (show PS.AttrCompletes _ _ (.residual _) (.prim (.int 1)) from ⟨.unknown _ _ hu, trivial, fun _ _ => rfl⟩)
+        PS.attrsComplete_nil)
+      PS.attrsComplete_nil
+  · intro u d hfd
+    simp only [pes, PEntities.find?] at hfd
+    split at hfd
+    · cases hfd
+      constructor
+      · intro a r hl
+        simp only [lookupKV] at hl
+        split at hl
+        · cases hl; exact ⟨_, _, rfl⟩
+        · cases hl
+      · intro a r hl; simp [lookupKV] at hl
+    · cases hfd
+
+/-- **missing_unbound_counterexample** (kernel-checked): for an entity missing from a `.partial()` store it is *not*
+enough that it is absent from the completed store — σ has to bind the unknown named by its uid (to the entity itself).
+`User::"a" has x` on the empty partial store leaves `unknown(User::"a") has x`; with σ = ∅ and the empty concrete store the
+concrete result is `false`, the substituted residual is an error. -/
+theorem missing_unbound_counterexample :
+    let e : Expr := .hasAttr (.lit (.entityUID ⟨"User", "a"⟩)) "x"
+    let r : Expr := .hasAttr (.unknown "User::\"a\"" (some (.entity "User"))) "x"
+    let req : Request := ⟨⟨"User", "b"⟩, ⟨"A", "x"⟩, ⟨"R", "r"⟩, []⟩
+    pinterp [] (.ofConcrete req) ⟨[], true⟩ [] 5 e = .res r ∧
+    evaluate req [] [] (e.substUnk []) = .ok (.prim (.bool false)) ∧
+    evaluate req [] [] (r.substUnk []) = .error .residual ∧
+    -- bound to itself, the residual agrees
+    evaluate req [] [] (r.substUnk [("User::\"a\"", .prim (.entityUID ⟨"User", "a"⟩))]) = .ok (.prim (.bool false)) := by
+  intro e r req
+  exact ⟨rfl, rfl, rfl, rfl⟩
+
+/-- **partial_definite_sound** — "any definite decision of the partial response is the decision obtained for every
+substitution", with explicit, validation-free hypotheses: for a policy set (static or template-linked policies, any slot
+environments) whose conditions lie in `Frag2 σ` and contain no unknown nodes, a partial store completed by `es` under σ, a
+partial request (possibly with a residual context) concretised by σ to `req`: a definite `decision()` of
+`is_authorized_core` is the decision of the concrete authorizer on `(req, es)`; `must_be_determining ⊆` the concrete
+determining policies `⊆ may_be_determining`; and the definitely satisfied / errored / false policies are so concretely
+(`table_sound` with its `Consistent` hypothesis discharged by `pinterp_sound_store`). -/
+theorem partial_definite_sound (σ : Mapper) (req : Request) (es : Entities) (preq : PRequest) (pes : PEntities)
+    (ps : List Policy) (hctx : (Value.record req.context).Canon)
+    (hS : PS.StoreCompletes σ pes es) (hC : PS.Concretizes2 σ es preq req)
+    (hfrag : ∀ p, p ∈ ps → PS.Frag2 σ p.condition ∧ p.condition.unknowns = [])
+    (hfuel1 : ∀ p, p ∈ ps → partialEvaluate [] preq pes p ≠ .stuck) :
+    let pr := isAuthorizedCore [] preq pes ps
+    (∀ d, pr.decision = some d → (isAuthorized req es ps).decision = d) ∧
+    (∀ id, id ∈ pr.mustBeDetermining → id ∈ (isAuthorized req es ps).reasons) ∧
+    (∀ id, id ∈ (isAuthorized req es ps).reasons → id ∈ pr.mayBeDetermining) ∧
+    (∀ id, id ∈ pr.definitelySatisfied → ∃ p, p ∈ ps ∧ p.id = id ∧ p.outcome req es = .sat) ∧
+    (∀ id, id ∈ pr.definitelyErrored → ∃ p, p ∈ ps ∧ p.id = id ∧ p.outcome req es = .err) ∧
+    (∀ id, id ∈ pr.definitelyFalse → ∃ p, p ∈ ps ∧ p.id = id ∧ p.outcome req es = .unsat) := by
+  intro pr
+  have hc : ∀ p, p ∈ ps → Consistent (partialEvaluate [] preq pes p) (p.outcome req es) := fun p hp =>
+    PS.consistent_of_frag3 σ req es hctx preq pes hS hC p (hfrag p hp).1
+      (PS.substUnk_of_noUnk σ _ (hfrag p hp).2) (hfuel1 p hp)
+  obtain ⟨h1, h2, h3, h4, h5, h6⟩ := table_sound [] preq pes ps (fun p => p.outcome req es) hc
+  refine ⟨?_, ?_, ?_, h4, h5, h6⟩
+  · intro d hd; rw [PS.isAuthorized_decision]; exact h1 d hd
+  · intro id hid; rw [PS.isAuthorized_reasons]; exact h2 id hid
+  · intro id hid; rw [PS.isAuthorized_reasons] at hid; exact h3 id hid
+
+/-- **partial_authorization_sound** — the statement of the property at the level of the whole authorizer.  Policy set:
+static and template-linked policies (arbitrary slot environments) whose conditions lie in `Frag2 σ` and contain no unknown
+nodes; partial store `pes` (unknown attribute / tag values, direct or nested) completed by `es` under σ; partial request
+(unknown principal / action / resource, missing or residual context) concretised by σ to `req`; no residual kept a slot
+(`residualPoliciesPanic = false`: otherwise `reauthorize` panics — the recorded finding); `concretize_request` succeeds;
+neither pass exhausts the model's recursion budget.  Then
+  (1) re-authorizing the partial response with σ **on the substituted store** succeeds in ONE round and gives the decision
+      and the determining policies of authorizing the fully concrete request from scratch;
+  (2) any definite decision of the partial response already is that decision, and
+      `must_be_determining ⊆ determining ⊆ may_be_determining`.
+One round suffices because the second pass reads the substituted store; on the unsubstituted store a nested unknown needs
+a second round (`second_round_needed`). -/
+theorem partial_authorization_sound (σ : Mapper) (req : Request) (es : Entities) (preq : PRequest) (pes : PEntities)
+    (ps : List Policy) (hctx : (Value.record req.context).Canon) (hstore : PS.StoreCanon es)
+    (hS : PS.StoreCompletes σ pes es) (hC : PS.Concretizes2 σ es preq req)
+    (hfrag : ∀ p, p ∈ ps → PS.Frag2 σ p.condition ∧ p.condition.unknowns = [])
+    (hreq : (isAuthorizedCore [] preq pes ps).concretizeRequest σ = .ok (.ofConcrete req))
+    (hslot : (isAuthorizedCore [] preq pes ps).residualPoliciesPanic = false)
+    (hfuel1 : ∀ p, p ∈ ps → partialEvaluate [] preq pes p ≠ .stuck)
+    (hfuel2 : ∀ p, p ∈ ps → ∀ q, residualPolicy (partialEvaluate [] preq pes p) p = some q →
+      partialEvaluate σ (.ofConcrete req) (.ofConcrete es) q ≠ .stuck) :
+    let pr := isAuthorizedCore [] preq pes ps
+    (∃ pr2, pr.reauthorize σ (.ofConcrete es) = .ok pr2 ∧
+      pr2.decision = some (isAuthorized req es ps).decision ∧
+      pr2.concretize.decision = (isAuthorized req es ps).decision ∧
+      (∀ id, id ∈ pr2.concretize.reasons ↔ id ∈ (isAuthorized req es ps).reasons)) ∧
+    (∀ d, pr.decision = some d → (isAuthorized req es ps).decision = d) ∧
+    (∀ id, id ∈ pr.mustBeDetermining → id ∈ (isAuthorized req es ps).reasons) ∧
+    (∀ id, id ∈ (isAuthorized req es ps).reasons → id ∈ pr.mayBeDetermining) := by
+  intro pr
+  obtain ⟨h1, h2, h3, _⟩ := partial_definite_sound σ req es preq pes ps hctx hS hC hfrag hfuel1
+  refine ⟨?_, h1, h2, h3⟩
+  exact reauthorize_core σ preq pes ps req es hreq hslot
+    (fun p hp => PS.policyAgrees_of_frag3 σ req es hctx hstore preq pes hS hC p (hfrag p hp).1
+      (PS.substUnk_of_noUnk σ _ (hfrag p hp).2)
+      (fun r hr => PS.noSlot_of_panicFree preq pes ps hslot hp hr) (hfuel2 p hp) (hfuel1 p hp))
+
+/-- non-vacuity of `partial_authorization_sound` / `partial_definite_sound`: the scenario of `second_round_needed` (unknown
+    principal, an entity with nested and direct unknown attributes) with a **template-linked** forbid
+    (`principal == ?principal`, linked to `User::"z"`) next to the nested-unknown permit.  All hypotheses are discharged;
+    the partial decision is undetermined, one `reauthorize` round on the substituted store gives the concrete `Allow`. -/
+example :
+    let linked : Policy := ⟨"linked", .forbid, .binaryApp .eq (.var .principal) (.slot .principal), [(.principal, ⟨"User", "z"⟩)]⟩
+    let ps := [PS.srNested, linked]
+    (isAuthorizedCore [] PS.srPreq PS.srPes ps).decision = none ∧ (isAuthorized PS.srReq PS.srEs ps).decision = .allow ∧
+    ∃ pr2, (isAuthorizedCore [] PS.srPreq PS.srPes ps).reauthorize PS.srSigma (.ofConcrete PS.srEs) = .ok pr2 ∧
+      pr2.decision = some (isAuthorized PS.srReq PS.srEs ps).decision ∧
+      (∀ id, id ∈ pr2.concretize.reasons ↔ id ∈ (isAuthorized PS.srReq PS.srEs ps).reasons) := by
+  intro linked ps
+  have hcan : (Value.record [("x", .prim (.int 1))]).Canon := ⟨⟨(by intro k' h; cases h), trivial⟩, trivial, trivial⟩
+  have hstore : PS.StoreCanon PS.srEs := by
+    intro u d h
+    simp only [PS.srEs, Entities.find?] at h
+    split at h
+    · cases h; exact ⟨⟨hcan, trivial, trivial⟩, trivial, trivial⟩
+    · cases h
+  have hfrag : ∀ p, p ∈ ps → PS.Frag2 PS.srSigma p.condition ∧ p.condition.unknowns = [] := by
+    intro p hp
+    simp only [ps, List.mem_cons, List.not_mem_nil, or_false] at hp
+    rcases hp with rfl | rfl
+    · refine ⟨.binaryApp .eq (.getAttr "info" (.var _)) (.record (by decide) ?_), rfl⟩
+      intro kv hkv; simp only [List.mem_cons, List.not_mem_nil, or_false] at hkv; subst hkv; exact .lit _
+    · exact ⟨.binaryApp .eq (.var _) (.slot _), rfl⟩
+  obtain ⟨hf1, hf2⟩ := PS.fuelOK_spec (σ := PS.srSigma) (req := PS.srReq) (es := PS.srEs) (preq := PS.srPreq) (pes := PS.srPes) (ps := ps)
+    (by decide +kernel)
+  obtain ⟨⟨pr2, h1, h2, _, h4⟩, _⟩ := partial_authorization_sound PS.srSigma PS.srReq PS.srEs PS.srPreq PS.srPes ps ⟨trivial, trivial⟩ hstore
+    PS.sr_storeCompletes.1 PS.sr_storeCompletes.2 hfrag rfl (by decide +kernel) hf1 hf2
+  exact ⟨by decide +kernel, by decide +kernel, pr2, h1, h2, h4⟩
+
+/-- **restricted_eval_sound** — the restricted evaluator (`RestrictedEvaluator::partial_interpret`, which evaluates
+contexts and attribute values) is sound for the evaluator: a *value* it returns is the value of the expression for every
+request, store and slot environment.  Consequently the hypotheses `PS.Concretizes2` of the theorems above are what
+`concretize_request` computes: `concretize_entry_gives_conc` for principal / action / resource,
+`context_substitute_gives_completes` for a residual context (`Context::substitute`). -/
+theorem restricted_eval_sound (req : Request) (es : Entities) (env : SlotEnv) (n : Nat) (e : Expr) (v : Value)
+    (h : rinterp n e = .val v) : evaluate req es env e = .ok v :=
+  PS.rinterp_sound req es env n e v h
+
+theorem concretize_entry_gives_conc {σ : Mapper} {en : UidEntry} {key : String} {uid : EntityUID}
+    (h : en.concretize key σ = .ok (.known uid)) : en.Conc σ key uid :=
+  PS.conc_of_concretize h
+
+theorem context_substitute_gives_completes (σ : Mapper) (es : Entities) {kvs : List (String × Expr)} {ctx : List (String × Value)}
+    (hf : PS.Frag2 σ (.record kvs)) (h : (PContext.residual kvs).substitute σ = .ok (.value ctx)) :
+    PS.CtxCompletes σ es (some (.residual kvs)) ctx :=
+  PS.ctxCompletes_of_substitute σ es hf h
+
+/-- non-vacuity: the residual context `{lim: unknown("l": long)}` under `l ↦ 7` -/
+example :
+    let σ : Mapper := [("l", .prim (.int 7))]
+    (PContext.residual [("lim", .unknown "l" (some .long))]).substitute σ = .ok (.value [("lim", .prim (.int 7))]) ∧
+    PS.CtxCompletes σ [] (some (.residual [("lim", .unknown "l" (some .long))])) [("lim", .prim (.int 7))] := by
+  intro σ
+  have hl : PS.UnkOK σ "l" (some .long) := ⟨_, rfl, trivial, by intro t ht; cases ht; rfl⟩
+  have hf : PS.Frag2 σ (.record [("lim", .unknown "l" (some .long))]) := by
+    refine .record (by decide) ?_
+    intro kv hkv; simp only [List.mem_cons, List.not_mem_nil, or_false] at hkv; subst hkv; exact .unknown _ _ hl
+  exact ⟨rfl, context_substitute_gives_completes σ [] hf rfl⟩
 
 end Cedar.C13
